@@ -335,6 +335,9 @@ PREFIXES = [
     [["expr", "c", ["add", ["lidx", ["mod", ["abs", ["loc", "b"]], ["const", 2]]], ["loc", "a"]]]],
     [["expr", "l", ["pair", ["loc", "a"]]], ["expr", "b", ["add", ["loc", "l1"], ["const", 1]]]],
     [["expr", "b", ["mul", ["loc", "l0"], ["const", 2]]], ["expr", "l", ["pair", ["loc", "c"]]]],
+    # an item of a computed sub-expression: pair(b * 2)[1], and below another operator
+    [["expr", "a", ["pidx", ["mul", ["loc", "b"], ["const", 2]], 1]]],
+    [["expr", "c", ["add", ["pidx", ["loc", "b"], 0], ["pidx", ["neg", ["loc", "a"]], 1]]]],
 ]
 
 
